@@ -51,6 +51,7 @@ def p_c11(facts, rep, tier):
         "taken directly on the lookup's result (an overlay delete is final). S2: in SeekRequest::continue_leaves_fetch (reconstruction of an elided "
         "subtree under an overlay chain) every stored leaf is copied into the merged result or superseded by an overlay entry - a forward dataflow "
         "tracks the frontier of handled leaves through the slice copies and cursor steps and requires it to be END on every path to reconstruct_pages. "
+        "S12: the read methods of LiveOverlay only measure or index `ancestor_data` (an ancestor is picked by the position the index's sequence number gives). "
         "S10: UpdatedPages::into_frozen_iter hands on every updated page (element-preserving iterator adapters only). "
         "S9: in SeekRequest::continue_leaf_fetch every path from the beatree iterator's next() to the completed LeafData passes a call that receives both "
         "the request's overlay_deletions and the item and whose result can send the loop back for the next item (inline and overflow items alike). "
@@ -74,6 +75,7 @@ def p_c11(facts, rep, tier):
     rep.floor("S1 functions consulting LiveOverlay::value with a store fall-back", nu, 2)
     shadow.s8(facts, rep)
     shadow.s10(facts, rep)
+    shadow.s12(facts, rep)
     shadow.s9(facts, rep)  # undecided shapes are recorded as a note (like S2), the anchor itself is required
     import mergefront
 
@@ -90,7 +92,7 @@ def p_c09(facts, rep, tier):
         "truncated only after the meta switch-over (shared with C03/C17 order rules); (v) S1: the reverse-delta worker (and Session::read) fall back to the store only when the overlay chain has NO entry for the key - an overlay delete is a final answer; "
         "(iv) M1: the in-memory image of the log (InMemory.log) is "
         "mutated only by InMemory's own one-record push_back / pop_back / pop_front, reached only from commit + replay, Rollback::truncate and "
-        "writeout_start respectively. (vii) K1: in Nomt::rollback every success path from Rollback::truncate to the return passes the rollback's own FinishedSession::commit (no Ok short-cut after the truncation); (vi) E1/E2: Delta::encode inspects the variant of every prior (or at least feeds no variant-forgetting combinator into the output) and Delta::decode can build both None and Some priors - the persistent form keeps `absent` and `empty value` apart. Restored values are not decided."
+        "writeout_start respectively. (viii) K2: Session::finish hands on a reverse delta whenever the session has a delta builder (variant-preserving Option plumbing only: one delta per commit, also for a commit that wrote nothing); (vii) K1: in Nomt::rollback every success path from Rollback::truncate to the return passes the rollback's own FinishedSession::commit (no Ok short-cut after the truncation); (vi) E1/E2: Delta::encode inspects the variant of every prior (or at least feeds no variant-forgetting combinator into the output) and Delta::decode can build both None and Some priors - the persistent form keeps `absent` and `empty value` apart. Restored values are not decided."
     )
     n_fn, n_eff, n_guard = guardfx.run(facts, rep, "C09")
     import sessionsem
@@ -119,6 +121,7 @@ def p_c09(facts, rep, tier):
 
     codec.run(facts, rep)
     guardfx.rollback_commits_after_truncate(facts, rep)
+    guardfx.one_delta_per_commit(facts, rep)
     rep.floor("C09 guardfx functions", n_fn, 2)
     rep.floor("C09 guardfx guards", n_guard, 2)
     rep.assume("path feasibility is ignored", "effect table as in rules/guardfx.py")
